@@ -674,6 +674,7 @@ def run(ctx):
             ctx.count("cases_retyped", retype_cases(rng, r[1]["flows"][0], r[1].get("groups")))
         judge(ctx, r[1], nontrivial, samples, label)
         c04_means.tie(ctx, r[1], label)
+    c04_means.generated(ctx, (400 if thorough else 40) * ctx.scale)
     ctx.v.coverage["programs"] = ctx.stats.get("round_trips_ok", 0)
     ctx.v.coverage["disagreements_checked"] = len(ctx.disagreements) + sum(ctx.v.viol_by_key.values()) + sum(ctx.v.known_hits.values())
     ctx.v.coverage["distinct_nontrivial"] = len(nontrivial)
